@@ -66,6 +66,60 @@ pub fn run(scenario: &str, input: &Value) -> Option<(bool, Value)> {
             });
             Some((got == expect, json!({"got": got})))
         }
+        // C07: each send-side operation writes exactly one frame, with exactly the bytes an independent encoder (the family
+        // generator gen_witness_family.py) produced for the control tuple the protocol assigns to it + payload; pass-through
+        // mode (the scripted peer does not offer DIST_HDR_ATOM_CACHE)
+        "send_frames" => {
+            use erltf::types::{Atom, ExternalPid, ExternalReference};
+            let pid = |v: &Value| -> ExternalPid {
+                let node = Atom::new(v["node"].as_str().unwrap());
+                let (id, serial, creation) = (i(&v["id"]) as u32, i(&v["serial"]) as u32, i(&v["creation"]) as u32);
+                match v.get("raw").and_then(|r| r.as_array()) {
+                    Some(r) => ExternalPid::with_local_ext_bytes(node, id, serial, creation, r.iter().map(|b| b.as_u64().unwrap() as u8).collect::<Vec<u8>>()),
+                    None => ExternalPid::new(node, id, serial, creation),
+                }
+            };
+            let rf = |v: &Value| -> ExternalReference {
+                ExternalReference::new(Atom::new(v["node"].as_str().unwrap()), i(&v["creation"]) as u32, v["ids"].as_array().unwrap().iter().map(|x| i(x) as u32).collect())
+            };
+            let ops = input["ops"].as_array().unwrap().clone();
+            let flags = input.get("peer_flags").and_then(|v| v.as_u64()).unwrap_or(0x0000_000d_07df_7fbd & !0x2000);
+            let rt = tokio::runtime::Builder::new_current_thread().enable_all().build().unwrap();
+            let (ok, obs) = rt.block_on(async move {
+                use tokio::io::AsyncReadExt;
+                let (mut conn, mut peer) = crate::peer::connected(flags).await;
+                let mut ok = true;
+                let mut obs = vec![];
+                for op in &ops {
+                    let r = match op["op"].as_str().unwrap() {
+                        "send" => conn.send_message(pid(&op["from"]), pid(&op["to"]), term(&op["payload"])).await,
+                        "reg_send" => conn.send_to_name(pid(&op["from"]), Atom::new(op["name"].as_str().unwrap()), term(&op["payload"])).await,
+                        "link" => conn.link(&pid(&op["from"]), &pid(&op["to"])).await,
+                        "unlink" => conn.unlink(&pid(&op["from"]), &pid(&op["to"]), op["id"].as_u64().unwrap()).await,
+                        "monitor" => conn.monitor(&pid(&op["from"]), &pid(&op["to"]), &rf(&op["ref"])).await,
+                        "demonitor" => conn.demonitor(&pid(&op["from"]), &pid(&op["to"]), &rf(&op["ref"])).await,
+                        _ => return (false, vec![json!("unknown op")]),
+                    };
+                    if r.is_err() { ok = false; obs.push(json!(format!("op failed: {:?}", r.err()))); continue; }
+                    let want: Vec<u8> = op["expect_frame"].as_array().unwrap().iter().map(|b| b.as_u64().unwrap() as u8).collect();
+                    let got = tokio::time::timeout(std::time::Duration::from_secs(2), async {
+                        let n = peer.read_u32().await.ok()? as usize;
+                        let mut b = vec![0u8; n];
+                        peer.read_exact(&mut b).await.ok()?;
+                        Some(b)
+                    }).await.ok().flatten();
+                    match got {
+                        Some(b) => { if b != want { ok = false; obs.push(json!({"op": op["op"], "got": b, "want": want})); } }
+                        None => { ok = false; obs.push(json!("no frame")); }
+                    }
+                }
+                // nothing else may have been written
+                let mut extra = [0u8; 1];
+                if let Ok(Ok(n)) = tokio::time::timeout(std::time::Duration::from_millis(150), peer.read(&mut extra)).await { if n > 0 { ok = false; obs.push(json!("extra bytes after the last frame")); } }
+                (ok, obs)
+            });
+            Some((ok, json!(obs)))
+        }
         // C11/C12: laws of the term order on a pair / triple, and the order Erlang prescribes where `erlang` is given
         "cmp_law" => {
             let a = term(&input["a"]);
